@@ -26,6 +26,7 @@ AXIOM MulAx ==
   /\ \A a \in E, n \in Int : Mul(a, n) \in E
   /\ \A a \in E, m, n \in Int : Mul(Mul(a, m), n) = Mul(a, m * n)
   /\ \A a \in E, n \in Int : Mul(a, -n) = Neg(Mul(a, n))
+  /\ \A a \in E : Mul(a, 0) = Zero
 
 LEMMA Unblind ==
   ASSUME NEW P \in E, NEW B \in E, NEW w \in Int
@@ -47,6 +48,22 @@ THEOREM Agreement ==
 <1>3. Add(Add(Mul(G, x), Mul(M, w)), Mul(M, -w)) = Mul(G, x)  BY <1>1, Unblind
 <1>4. Mul(Mul(G, y), x) = Mul(G, y * x)  BY MulAx
 <1>5. Mul(Mul(G, x), y) = Mul(G, x * y)  BY MulAx
+<1>6. y * x = x * y  OBVIOUS
+<1> QED  BY <1>2, <1>3, <1>4, <1>5, <1>6
+
+(* Finding F8 is inherent to the protocol: with password scalar 0 the blinding *)
+(* terms vanish, so two ends whose parameter sets differ in M and N (any        *)
+(* M1, N1 versus M2, N2) still compute the same K.                              *)
+THEOREM F8Inherent ==
+  ASSUME NEW G \in E, NEW M1 \in E, NEW N1 \in E, NEW M2 \in E, NEW N2 \in E, NEW x \in Int, NEW y \in Int
+  PROVE  LET Xs == Add(Mul(G, x), Mul(M1, 0))       \* sent by A under (M1, N1)
+             Ys == Add(Mul(G, y), Mul(N2, 0))       \* sent by B under (M2, N2)
+         IN Mul(Add(Ys, Mul(N1, -0)), x) = Mul(Add(Xs, Mul(M2, -0)), y)
+<1>1. Mul(G, x) \in E /\ Mul(G, y) \in E  BY MulAx
+<1>2. Mul(M1, 0) = Zero /\ Mul(N2, 0) = Zero /\ Mul(N1, -0) = Zero /\ Mul(M2, -0) = Zero  BY MulAx
+<1>3. Add(Add(Mul(G, y), Zero), Zero) = Mul(G, y)  BY <1>1, GroupAx
+<1>4. Add(Add(Mul(G, x), Zero), Zero) = Mul(G, x)  BY <1>1, GroupAx
+<1>5. Mul(Mul(G, y), x) = Mul(G, y * x) /\ Mul(Mul(G, x), y) = Mul(G, x * y)  BY MulAx
 <1>6. y * x = x * y  OBVIOUS
 <1> QED  BY <1>2, <1>3, <1>4, <1>5, <1>6
 =============================================================================
